@@ -2,7 +2,10 @@
 //
 // A real publisher visor (in-process, lib/fix) creates a reference chain b1..bn (n <= 12). A real
 // follower daemon (vnode child, fresh database, configured with the publisher's genesis
-// signature) is fed over TCP by 1-3 raw peers (lib/wire) with those blocks in any order, with
+// signature; the configuration of this receiving node cycles with the plan index over follower,
+// block publisher (publisher key, arbitrating — what a restored or standby publisher catching up
+// from peers runs with), block publisher without arbitration, arbitrating follower)
+// is fed over TCP by 1-3 raw peers (lib/wire) with those blocks in any order, with
 // duplicates, loss, splitting into GIVB messages, two peers sending at the same time, and forged
 // siblings (foreign-signed, unsigned, transplanted signature, publisher-signed invalid content,
 // wrong parent). After every message (PING/PONG barrier) the follower's chain is read through
@@ -40,7 +43,7 @@ func main() {
 	}
 	defer os.RemoveAll(root)
 
-	plans := r.Pick(48, 2000)
+	plans := r.Pick(64, 2000)
 	vf.Parallel(plans, 12, func(i int) {
 		if r.Violations() > 10 {
 			return
@@ -82,12 +85,33 @@ func main() {
 	for _, c := range forgedClasses {
 		r.Floor("forged.offered-as-next-block."+c, int64(r.Pick(2, 50)))
 	}
+	// every configuration of the receiving node: plans, forged next blocks of every class it is
+	// offered, accepted blocks, block requests following the head, stored signatures checked
+	for ci, c := range nodeConfigs {
+		np, nf := plansOf(ci, plans)
+		pre := "cfg." + c.Name + "."
+		r.Floor(pre+"plans.completed", int64(np*3/4))
+		r.Floor(pre+"plans.with-forged-blocks", int64(nf*3/4))
+		r.Floor(pre+"plans.final-prefix-shorter-than-chain", int64(r.Pick(0, 20)))
+		r.Floor(pre+"blocks.accepted", int64(np*2))
+		r.Floor(pre+"requests.getb-equals-new-head", int64(np))
+		r.Floor(pre+"stored-blocks.signature-checked", int64(np*10))
+		for _, cl := range c.classes() {
+			// the first delivery of every forging plan is a forged next block, classes cycling
+			fl := nf / len(c.classes()) * 3 / 4
+			if fl < 1 {
+				fl = 1
+			}
+			r.Floor(pre+"forged.offered-as-next-block."+cl, int64(fl))
+		}
+	}
 	os.RemoveAll(root)
 	r.Count("bursts.shifted-around-read-cut", atomic.LoadInt64(&shiftedBursts))
-	r.Finish("per plan: a fresh publisher chain of 4..12 blocks (1-2 transactions each), a peer holding all blocks or a lossy subset, 5..16 seeded GIVB messages of 1..5 blocks (ascending runs, random picks, shuffled and repeated blocks, forged siblings placed where the next block is expected) from 1..3 peers, one step in six sent by two peers at the same time, then a closing phase answering the follower's block requests in order; an evaluation is one delivery step with all its checks; distinct = distinct (head before, head after, message shape)",
+	r.Finish("per plan: a fresh receiving node whose configuration is a function of the plan index (follower / block publisher with the publisher key and arbitrating / block publisher not arbitrating / arbitrating follower; every configuration meets every forging rate within 16 consecutive plans and is offered every forged class as the next block), a fresh publisher chain of 4..12 blocks (1-2 transactions each), a peer holding all blocks or a lossy subset, 5..16 seeded GIVB messages of 1..5 blocks (ascending runs, random picks, shuffled and repeated blocks, forged siblings placed where the next block is expected) from 1..3 peers, one step in six sent by two peers at the same time, then a closing phase answering the follower's block requests in order; an evaluation is one delivery step with all its checks; distinct = distinct (head before, head after, message shape)",
 		"per-message prediction: blocks at or below the head are skipped, the rest are taken in message order, the message stops at the first block that does not extend the chain; where a message repeats a block it has just delivered, both readings of 'already held' (head when the message arrived / head by now) are admitted; for two concurrent messages both processing orders are admitted",
 		"'longest gap-free prefix it was given' is judged at the end of the closing phase, in which a peer has offered, in order and in response to the follower's requests, every block the peers hold; during the chaos phase blocks above a gap are dropped by design and only the per-message rule is judged",
 		"a forged block is one that differs from the publisher's block of that height (foreign key, no signature, signature of another block, or publisher-signed with created coins / wrong unspent hash / wrong body hash / time not after the parent / wrong parent); the publisher never signs two valid blocks of one height here",
+		"the oracle is the same for every configuration of the receiving node (the statement does not mention the configuration); an arbitrating node by design drops an invalid transaction from a publisher-signed block with a valid header instead of refusing the block, so the publisher-signed class content:coins-created is not offered to arbitrating configurations; a node with the publisher configuration signs its own genesis block (same header), blocks 1.. are compared byte for byte, signature included",
 		"stored signatures are verified with lib/ledger.VerifyBlockSig (reference secp256k1) over the harness's own header hash",
 		"barrier: the follower's PONG proves all earlier messages of that connection were processed (one FIFO event loop); 30 s watchdogs only yield inconclusive",
 		"GIVB+PING bursts whose PING would straddle the receiver's 1024-byte read cut with 5..7 bytes are shifted by an ignorable PONG frame (message loss at such cuts is a C22 framing defect, not a sync defect)",
